@@ -72,7 +72,7 @@ def _run_chunks(ctx, d, tla, cfg, chunks):
     TraceLib needs -workers 1). Returns (all accepted, first rejected global line, bad global lines, outputs)."""
     from concurrent.futures import ThreadPoolExecutor
     with ThreadPoolExecutor(max_workers=len(chunks)) as ex:
-        rs = list(ex.map(lambda c: ctx.tlc_trace(d, tla, cfg, c[0], timeout=1500), chunks))
+        rs = list(ex.map(lambda c: ctx.tlc_trace(d, tla, cfg, c[0], timeout=1500, xss=True), chunks))
     ok, first, bad, outs = True, None, [], []
     for (path, head, lo), r in zip(chunks, rs):
         outs.append(r["out"])
@@ -124,12 +124,12 @@ def _validate(ctx, d, tla, stem, trace, events, replay_base, what, parallel=4):
     ctx.traces = len(events) - len(bad_lines)
 
 
-def _cases(ctx, d, tla, cfg, timeout=1500, workers=6):
+def _cases(ctx, d, tla, cfg, timeout=1500, workers=6, xss=False):
     """E3 + E1 in one TLC run: the design-level theorems are invariants checked on every case and
     every case is printed (CONSTRAINT EmitCase). Like vlib.tlc_edges, but with several workers: the
     decision tables have one initial state per shape and the cases are its successors, each case is
     printed by one println, so the order of the lines is irrelevant (they are sorted afterwards)."""
-    rc, out = ctx._tlc(d, tla, cfg, workers, (), timeout)
+    rc, out = ctx._tlc(d, tla, cfg, workers, (), timeout, xss=xss)
     if "Error:" in out or rc != 0:
         raise Infra("design-level TLC run %s/%s did not pass (model problem, not a verdict on the code):\n%s"
                     % (tla, cfg, out[-3000:]))
@@ -226,7 +226,7 @@ def run_C06(ctx, args):
     if not rep and not quick:
         _witness(ctx, d, "MC_WireTx.tla",
                  [("MC_WireTx_wit_%s.cfg" % w, w) for w in ("NoMutatedAccept", "NoNonMinReject", "NoReplReject", "NoAny")])
-    emitted = _cases(ctx, d, "MC_WireTx.tla", tier_cfg)
+    emitted = _cases(ctx, d, "MC_WireTx.tla", tier_cfg, xss=True)      # lists of 256 items: recursion depth
     ctx.exhaustive = True
     key = lambda s: json.dumps(s, sort_keys=True)
     shapes = sorted((c for c in emitted if c["kind"] == "shape"), key=lambda c: key(c["shape"]))
